@@ -137,10 +137,11 @@ def family_bodies(facts, body):
     out = [body]
     seen = {body.did}
     st = [body]
+    spliced = set(body._cache.get("inlined_from") or ())         # an inlined view: what was spliced in is already part of `body`
     while st:
         x = st.pop()
         for c in facts.children.get(x.did, []):
-            if c.kind == "closure" and c.did not in seen:
+            if c.kind == "closure" and c.did not in seen and c.id not in spliced:
                 seen.add(c.did)
                 out.append(c)
                 st.append(c)
@@ -271,13 +272,17 @@ def method_sig(facts, body, trait_path):
                         def decodes(x):
                             if isinstance(x, tuple) and x and x[0] == "call" and (CONV.match(str(x[1])) and "::from_" in str(x[1]) or (BITS.match(str(x[1])) and "::from_bits" in str(x[1]))):
                                 return True
-                            if isinstance(x, tuple) and len(x) >= 2 and x[0] == "closure" and x[1] in facts.by_did:
-                                # `.map(|src| u64::from_le_bytes(..))`: the value is what the closure decodes
-                                for _, ct in facts.by_did[x[1]].calls():
-                                    cf = callee(ct)
-                                    cp = ((cf.get("res") or cf)["path"]) if cf else ""
-                                    if (CONV.match(cp) and "::from_" in cp) or (BITS.match(cp) and "::from_bits" in cp):
-                                        return True
+                            if isinstance(x, tuple) and x and x[0] == "call" and str(x[1]).rsplit("::", 1)[-1] in ("map", "and_then", "map_or", "map_or_else", "call_once", "call", "call_mut"):
+                                # `.map(|src| u64::from_le_bytes(..))`: the value is what the closure handed to the combinator decodes
+                                for a_ in x[2]:
+                                    while isinstance(a_, tuple) and a_ and a_[0] in ("ref", "deref"):
+                                        a_ = a_[1]
+                                    if isinstance(a_, tuple) and len(a_) >= 2 and a_[0] == "closure" and a_[1] in facts.by_did:
+                                        for _, ct in facts.by_did[a_[1]].calls():
+                                            cf = callee(ct)
+                                            cp = ((cf.get("res") or cf)["path"]) if cf else ""
+                                            if (CONV.match(cp) and "::from_" in cp) or (BITS.match(cp) and "::from_bits" in cp):
+                                                return True
                             return False
                         if any(decodes(x) for x in walk(e_)):
                             other = st["rv"]["b"] if o is st["rv"]["a"] else st["rv"]["a"]
@@ -419,6 +424,19 @@ def run(facts, prop=None):
                 out |= terminal(d, stack + (n,))
             return out
 
+        # pass 1: a private helper shared by both byte orders and steered by a literal argument (`var_width_dst(buf, n, big_endian: bool)`)
+        # contributes both of its branches to the family: such a method is read with its helpers spliced in, where the literal folds
+        from .inline import views as _views
+        for n, b in sorted(methods.items()):
+            if terminal(n) == expected(n, te):
+                continue
+            for ib in _views(facts, b, keep_names=("sign_extend",)):
+                s2 = method_sig(facts, ib, trait_path)
+                old_ = sigs[n]
+                sigs[n] = s2
+                if terminal(n) == expected(n, te):
+                    break
+                sigs[n] = old_
         for n, b in sorted(methods.items()):
             loc = b.loc()
             key = "%s::%s" % (tname, n)
